@@ -23,13 +23,16 @@ import (
 	"net/netip"
 	"os"
 	"path/filepath"
+	"reflect"
 	"strings"
 	"testing"
+	"unsafe"
 
 	"github.com/daeuniverse/dae/common/assets"
 	"github.com/daeuniverse/dae/common/consts"
 	"github.com/daeuniverse/dae/component/dns"
 	"github.com/daeuniverse/dae/component/routing"
+	"github.com/daeuniverse/dae/component/routing/domain_matcher"
 	"github.com/daeuniverse/dae/config"
 	"github.com/daeuniverse/dae/pkg/config_parser"
 	"github.com/daeuniverse/dae/pkg/geodata"
@@ -148,58 +151,243 @@ type c04Env struct {
 	atomM  map[string]any
 	stats  *VStats
 	stages map[string][]string
+	dnsNew bool // dns.New is usable as the production constructor
+	bulk   map[c04Atom]c04BulkRef
 }
 
-// the optimizer list of a call site, read from the source of the repo under test.
-func c04Stages(file, callee string) []string {
+// What a production call site looks like, read from the source of the repo under test (go/ast):
+// the optimizer types in order, any field set on an optimizer literal other than Logger /
+// LocationFinder (an option the harness-built optimizers would not have), and whether the "glue"
+// is the expected one: the optimizers are inline `&pkg.Type{…}` literals, the first two arguments are
+// `<x>.Rules, <x>.Fallback` of one and the same value, and (traffic only, where the constructor cannot be
+// run) the normalised program is not written to or handed to anything but logging between the
+// normalising call and the builder call.
+type c04Site struct {
+	names  []string
+	fields []string
+	glue   string
+}
+
+func c04ExprStr(e ast.Expr) string {
+	switch x := e.(type) {
+	case *ast.Ident:
+		return x.Name
+	case *ast.SelectorExpr:
+		return c04ExprStr(x.X) + "." + x.Sel.Name
+	}
+	return "?"
+}
+
+func c04CallName(call *ast.CallExpr) string {
+	switch fn := call.Fun.(type) {
+	case *ast.SelectorExpr:
+		return fn.Sel.Name
+	case *ast.Ident:
+		return fn.Name
+	}
+	return ""
+}
+
+func c04ReadSite(file, callee, builder string) c04Site {
 	repo := os.Getenv("VERIF_REPO")
 	if repo == "" {
 		repo = "/repo"
 	}
-	fset := token.NewFileSet()
-	f, err := parser.ParseFile(fset, filepath.Join(repo, file), nil, 0)
+	site := c04Site{glue: "ok"}
+	f, err := parser.ParseFile(token.NewFileSet(), filepath.Join(repo, file), nil, 0)
 	if err != nil {
-		return []string{"parse-error"}
+		site.glue = "source-not-parsed"
+		return site
 	}
-	var out []string
-	found := false
+	var theCall *ast.CallExpr
+	var body *ast.BlockStmt
 	ast.Inspect(f, func(n ast.Node) bool {
-		call, ok := n.(*ast.CallExpr)
-		if !ok || found {
-			return true
-		}
-		name := ""
-		switch fn := call.Fun.(type) {
-		case *ast.SelectorExpr:
-			name = fn.Sel.Name
-		case *ast.Ident:
-			name = fn.Name
-		}
-		if name != callee {
-			return true
-		}
-		for _, a := range call.Args {
-			u, ok := a.(*ast.UnaryExpr)
-			if !ok {
-				continue
-			}
-			cl, ok := u.X.(*ast.CompositeLit)
-			if !ok {
-				continue
-			}
-			switch t := cl.Type.(type) {
-			case *ast.SelectorExpr:
-				out = append(out, t.Sel.Name)
-			case *ast.Ident:
-				out = append(out, t.Name)
-			}
-		}
-		if len(out) > 0 {
-			found = true
+		if fd, ok := n.(*ast.FuncDecl); ok && fd.Body != nil && theCall == nil {
+			ast.Inspect(fd.Body, func(m ast.Node) bool {
+				if call, ok := m.(*ast.CallExpr); ok && theCall == nil && c04CallName(call) == callee && len(call.Args) > 2 {
+					theCall, body = call, fd.Body
+				}
+				return true
+			})
 		}
 		return true
 	})
-	return out
+	if theCall == nil {
+		site.glue = "call-not-found"
+		return site
+	}
+	// first two arguments: <x>.Rules, <x>.Fallback
+	a0, ok0 := theCall.Args[0].(*ast.SelectorExpr)
+	a1, ok1 := theCall.Args[1].(*ast.SelectorExpr)
+	if !ok0 || !ok1 || a0.Sel.Name != "Rules" || a1.Sel.Name != "Fallback" || c04ExprStr(a0.X) != c04ExprStr(a1.X) {
+		site.glue = "rules-and-fallback-not-of-one-value"
+	}
+	for _, a := range theCall.Args[2:] {
+		u, ok := a.(*ast.UnaryExpr)
+		var cl *ast.CompositeLit
+		if ok {
+			cl, ok = u.X.(*ast.CompositeLit)
+		}
+		if !ok {
+			site.glue = "optimizer-not-an-inline-literal"
+			continue
+		}
+		name := c04ExprStr(cl.Type)
+		if i := strings.LastIndex(name, "."); i >= 0 {
+			name = name[i+1:]
+		}
+		site.names = append(site.names, name)
+		for _, el := range cl.Elts {
+			if kv, ok := el.(*ast.KeyValueExpr); ok {
+				k := c04ExprStr(kv.Key)
+				if k != "Logger" && k != "LocationFinder" {
+					site.fields = append(site.fields, name+"."+k)
+				}
+			} else {
+				site.fields = append(site.fields, name+".<positional>")
+			}
+		}
+	}
+	if builder == "" || site.glue != "ok" {
+		return site
+	}
+	// traffic: statements between the normalising call and the builder call must leave the program alone
+	progVar := ""
+	var stmts []ast.Stmt
+	ast.Inspect(body, func(n ast.Node) bool {
+		if blk, ok := n.(*ast.BlockStmt); ok && stmts == nil {
+			for _, st := range blk.List {
+				if as, ok := st.(*ast.AssignStmt); ok && len(as.Rhs) == 1 && as.Rhs[0] == ast.Expr(theCall) && len(as.Lhs) > 0 {
+					progVar = c04ExprStr(as.Lhs[0])
+					stmts = blk.List
+				}
+			}
+		}
+		return true
+	})
+	if progVar == "" {
+		site.glue = "normalised-program-not-assigned-to-a-variable"
+		return site
+	}
+	mentions := func(e ast.Expr) bool {
+		s := c04ExprStr(e)
+		return s == progVar || strings.HasPrefix(s, progVar+".")
+	}
+	state := 0 // 0 before the normalising call, 1 between, 2 after the builder call
+	for _, st := range stmts {
+		if state == 0 {
+			if as, ok := st.(*ast.AssignStmt); ok && len(as.Rhs) == 1 && as.Rhs[0] == ast.Expr(theCall) {
+				state = 1
+			}
+			continue
+		}
+		if state == 2 {
+			break
+		}
+		ast.Inspect(st, func(n ast.Node) bool {
+			switch x := n.(type) {
+			case *ast.AssignStmt:
+				for _, l := range x.Lhs {
+					if mentions(l) {
+						site.glue = "normalised-program-written-before-build"
+					}
+				}
+			case *ast.IncDecStmt:
+				if mentions(x.X) {
+					site.glue = "normalised-program-written-before-build"
+				}
+			case *ast.CallExpr:
+				if c04CallName(x) == builder {
+					state = 2
+					found := false
+					for _, a := range x.Args {
+						if c04ExprStr(a) == progVar {
+							found = true
+						}
+					}
+					if !found {
+						site.glue = "builder-not-given-the-normalised-program"
+					}
+					return false
+				}
+				base := ""
+				if sel, ok := x.Fun.(*ast.SelectorExpr); ok {
+					base = c04ExprStr(sel.X)
+				}
+				for _, a := range x.Args {
+					if u, ok := a.(*ast.UnaryExpr); ok {
+						a = u.X
+					}
+					if mentions(a) && base != "log" && base != "debugBuilder" && base != "fmt" {
+						site.glue = "normalised-program-handed-to-" + c04CallName(x) + "-before-build"
+					}
+				}
+			}
+			return true
+		})
+	}
+	if state != 2 {
+		site.glue = "builder-call-not-found-after-normalising"
+	}
+	return site
+}
+
+func (s c04Site) String() string {
+	f := "none"
+	if len(s.fields) > 0 {
+		f = strings.Join(s.fields, ",")
+	}
+	return "pipeline=" + strings.Join(s.names, ",") + " fields=" + f + " glue=" + s.glue
+}
+
+// the stage list the harness runs: the one found in the source when it is made of known optimizers,
+// otherwise the documented one (the difference is then reported through the `pipeline` line).
+func c04UsableStages(found []string, kind string) []string {
+	def := []string{"DatReaderOptimizer", "MergeAndSortRulesOptimizer", "DeduplicateParamsOptimizer"}
+	if kind == "traffic" {
+		def = append([]string{"AliasOptimizer"}, def...)
+	}
+	if len(found) == 0 {
+		return def
+	}
+	for _, n := range found {
+		switch n {
+		case "AliasOptimizer", "DatReaderOptimizer", "MergeAndSortRulesOptimizer", "DeduplicateParamsOptimizer":
+		default:
+			return def
+		}
+	}
+	return found
+}
+
+// The DNS matchers as production builds them: the REAL dns.New (upstream parsing, both optimizer
+// chains, SplitRequestRules, both builders) on a config.Dns holding the rule list; the two matchers
+// are read out of the returned object.  The other direction gets a different fallback so that a
+// mix-up of the two rule lists / fallbacks changes decisions.
+func (e *c04Env) dnsProduction(kind string, rules []*c04Rule, fb string) (m *c04Matcher, usable bool) {
+	other := "cf"
+	if fb == "cf" {
+		other = "alidns"
+	}
+	cfg := &config.Dns{Upstream: []config.KeyableString{"alidns:udp://223.5.5.5:53", "googledns:udp://8.8.8.8:53", "cf:udp://1.1.1.1:53"}}
+	if kind == "dnsreq" {
+		cfg.Routing.Request.Rules, cfg.Routing.Request.Fallback, cfg.Routing.Response.Fallback = rules, fb, other
+	} else {
+		cfg.Routing.Response.Rules, cfg.Routing.Response.Fallback, cfg.Routing.Request.Fallback = rules, fb, other
+	}
+	s, err := dns.New(cfg, &dns.NewOption{Logger: e.log, LocationFinder: e.lf})
+	if err != nil || s == nil {
+		return nil, true
+	}
+	v := reflect.ValueOf(s).Elem()
+	fq, fs := v.FieldByName("reqMatcher"), v.FieldByName("respMatcher")
+	if !fq.IsValid() || !fs.IsValid() || fq.Type() != reflect.TypeOf((*dns.RequestMatcher)(nil)) || fs.Type() != reflect.TypeOf((*dns.ResponseMatcher)(nil)) {
+		return nil, false
+	}
+	m = &c04Matcher{kind: kind}
+	m.rq = *(**dns.RequestMatcher)(unsafe.Pointer(fq.UnsafeAddr()))
+	m.rs = *(**dns.ResponseMatcher)(unsafe.Pointer(fs.UnsafeAddr()))
+	return m, true
 }
 
 func (e *c04Env) mkOptimizers(names []string) []routing.RulesOptimizer {
@@ -394,7 +582,63 @@ func c04One(name, key, val, out string) []*c04Rule {
 }
 
 // truth of one value for one packet, by the real builder + matcher on the one-value program.
+// Scale programs have thousands of domain values; building one matcher per value would dominate the
+// run.  Their domain atoms are evaluated in bulk by the same leaf matcher the builders use
+// (domain_matcher.AhocorasickSlimtrie), one match set per value, 1000 values per matcher.
+type c04BulkRef struct {
+	m   *domain_matcher.AhocorasickSlimtrie
+	bit int
+}
+
+func c04IsDomainAtom(a c04Atom) bool {
+	if a.name != "domain" && a.name != "qname" {
+		return false
+	}
+	switch a.key {
+	case "suffix", "full", "keyword", "regex":
+		return true
+	}
+	return false
+}
+
+func (e *c04Env) prepareBulk(atoms []c04Atom) {
+	var todo []c04Atom
+	for _, a := range atoms {
+		if c04IsDomainAtom(a) {
+			if _, ok := e.bulk[c04Atom{"", a.key, a.val}]; !ok {
+				todo = append(todo, a)
+			}
+		}
+	}
+	for len(todo) > 0 {
+		n := len(todo)
+		if n > 1000 {
+			n = 1000
+		}
+		m := domain_matcher.NewAhocorasickSlimtrie(e.log, consts.MaxMatchSetLen)
+		for i, a := range todo[:n] {
+			m.AddSet(i, []string{a.val}, consts.RoutingDomainKey(a.key))
+			e.bulk[c04Atom{"", a.key, a.val}] = c04BulkRef{m, i}
+		}
+		if err := m.Build(); err != nil {
+			panic(err)
+		}
+		todo = todo[n:]
+	}
+}
+
 func (e *c04Env) truth(kind string, a c04Atom, p *c04Packet) (bool, bool) {
+	if ref, ok := e.bulk[c04Atom{"", a.key, a.val}]; ok && c04IsDomainAtom(a) {
+		name := p.domain
+		if kind != "traffic" {
+			name = p.qname
+		}
+		if name == "" { // the matchers do not consult the domain sets for an empty name
+			return false, true
+		}
+		bm := ref.m.MatchDomainBitmap(name)
+		return bm != nil && (bm[ref.bit/32]>>(ref.bit%32))&1 == 1, true
+	}
 	ck := kind + "\x00" + a.name + "\x00" + a.key + "\x00" + a.val
 	mv, ok := e.atomM[ck]
 	if !ok {
@@ -453,7 +697,9 @@ func c04Remember(file string, msg proto.Message) {
 				}
 				es = append(es, c04SiteEntry{d.Type, d.Value, attrs})
 			}
-			c04SiteTruth[file][strings.ToUpper(e.CountryCode)] = es
+			if _, dup := c04SiteTruth[file][strings.ToUpper(e.CountryCode)]; !dup { // the first entry of a code wins
+				c04SiteTruth[file][strings.ToUpper(e.CountryCode)] = es
+			}
 		}
 	case *geodata.GeoIPList:
 		c04IpTruth[file] = map[string][]string{}
@@ -463,7 +709,12 @@ func c04Remember(file string, msg proto.Message) {
 				a, _ := netip.AddrFromSlice(c.Ip)
 				ps = append(ps, netip.PrefixFrom(a, int(c.Prefix)).String())
 			}
-			c04IpTruth[file][strings.ToUpper(e.CountryCode)] = ps
+			if e.InverseMatch {
+				continue // "not support inverse match yet": a load error, like an unknown code
+			}
+			if _, dup := c04IpTruth[file][strings.ToUpper(e.CountryCode)]; !dup {
+				c04IpTruth[file][strings.ToUpper(e.CountryCode)] = ps
+			}
 		}
 	}
 }
@@ -527,10 +778,30 @@ func c04WriteGeo(dir string) error {
 		{CountryCode: "EMPTY"},
 		{CountryCode: "ATTR", Domain: []*geodata.Domain{dom(geodata.Domain_RootDomain, "b.com", "x"), dom(geodata.Domain_Full, "c.com")}},
 		{CountryCode: "DUP", Domain: []*geodata.Domain{dom(geodata.Domain_RootDomain, "a.com"), dom(geodata.Domain_RootDomain, "a.com"), dom(geodata.Domain_Plain, "goo")}},
+		{CountryCode: "BOTH", Domain: []*geodata.Domain{dom(geodata.Domain_Full, "c.com")}},
+		// the same code twice in one file: the first entry wins
+		{CountryCode: "TWICE", Domain: []*geodata.Domain{dom(geodata.Domain_Full, "a.com")}},
+		{CountryCode: "TWICE", Domain: []*geodata.Domain{dom(geodata.Domain_Full, "x.org")}},
 	}}
+	// two large categories (scale stream): overlapping, with exact duplicates
+	big, big2 := &geodata.GeoSite{CountryCode: "BIG"}, &geodata.GeoSite{CountryCode: "BIG2"}
+	for i := 0; i < 3000; i++ {
+		big.Domain = append(big.Domain, dom(geodata.Domain_RootDomain, fmt.Sprintf("d%04d.big.example", i)))
+		if i%500 == 0 {
+			big.Domain = append(big.Domain, dom(geodata.Domain_RootDomain, fmt.Sprintf("d%04d.big.example", i)), dom(geodata.Domain_Full, fmt.Sprintf("d%04d.big.example", i)))
+		}
+	}
+	for i := 2500; i < 4000; i++ {
+		big2.Domain = append(big2.Domain, dom(geodata.Domain_RootDomain, fmt.Sprintf("d%04d.big.example", i)))
+	}
+	site.Entry = append(site.Entry, big, big2)
+	// extra.dat reuses codes of geosite.dat with DIFFERENT content (a cache key that forgets the file would mix them)
 	extra := &geodata.GeoSiteList{Entry: []*geodata.GeoSite{
 		{CountryCode: "E1", Domain: []*geodata.Domain{dom(geodata.Domain_RootDomain, "x.org"), dom(geodata.Domain_Full, "www.a.com")}},
 		{CountryCode: "E0"},
+		{CountryCode: "MIX", Domain: []*geodata.Domain{dom(geodata.Domain_Full, "zzz.net")}},
+		{CountryCode: "ONE", Domain: []*geodata.Domain{dom(geodata.Domain_RootDomain, "b.com")}},
+		{CountryCode: "EMPTY", Domain: []*geodata.Domain{dom(geodata.Domain_Plain, "xyz")}},
 	}}
 	cidr := func(s string) *geodata.CIDR {
 		p := netip.MustParsePrefix(s)
@@ -541,9 +812,12 @@ func c04WriteGeo(dir string) error {
 		{CountryCode: "V6", Cidr: []*geodata.CIDR{cidr("2001:db8::/32")}},
 		{CountryCode: "MIXIP", Cidr: []*geodata.CIDR{cidr("fd00::/8"), cidr("192.168.0.0/16"), cidr("10.1.0.0/16")}},
 		{CountryCode: "EMPTYIP"},
+		{CountryCode: "BOTH", Cidr: []*geodata.CIDR{cidr("192.169.0.0/16")}}, // also a geosite code
+		{CountryCode: "INV", InverseMatch: true, Cidr: []*geodata.CIDR{cidr("10.0.0.0/8")}},
 	}}
 	extraip := &geodata.GeoIPList{Entry: []*geodata.GeoIP{
 		{CountryCode: "P1", Cidr: []*geodata.CIDR{cidr("1.1.1.1/32"), cidr("::1/128")}},
+		{CountryCode: "V4", Cidr: []*geodata.CIDR{cidr("8.8.8.0/24")}}, // same code as in geoip.dat, other content
 	}}
 	for name, msg := range map[string]proto.Message{"geosite.dat": site, "extra.dat": extra, "geoip.dat": ip, "extraip.dat": extraip} {
 		c04Remember(strings.TrimSuffix(name, ".dat"), msg)
@@ -657,11 +931,11 @@ var (
 	c04Full    = []string{"a.com", "www.a.com", "x.org", "b.a.com", "c.com"}
 	c04Keyword = []string{"goo", "a.c", "xyz", "org"}
 	c04Regex   = []string{"^a\\..*$", "^.*\\.org$", "oo", "^x\\..*$"}
-	c04Sites   = []string{"one", "mix", "empty", "attr", "attr@x", "attr@nosuch", "mix@x", "mix@y", "dup", "ONE"}
-	c04ExtSite = []string{"extra:e1", "extra:e0", "extra.dat:E1"}
+	c04Sites   = []string{"one", "mix", "empty", "attr", "attr@x", "attr@nosuch", "mix@x", "mix@y", "dup", "ONE", "both", "twice", "mix"}
+	c04ExtSite = []string{"extra:e1", "extra:e0", "extra.dat:E1", "extra:mix", "extra:one", "extra:empty", "extra:MIX"}
 	c04Cidrs   = []string{"10.0.0.0/8", "10.1.0.0/16", "1.1.1.1", "1.1.1.0/24", "192.168.0.0/16", "2001:db8::/32", "::1", "fd00::/8", "0.0.0.0/0", "a:b::c", "b::c"}
-	c04GeoIps  = []string{"v4", "v6", "mixip", "emptyip", "V4"}
-	c04ExtIp   = []string{"extraip:p1"}
+	c04GeoIps  = []string{"v4", "v6", "mixip", "emptyip", "V4", "both"}
+	c04ExtIp   = []string{"extraip:p1", "extraip:v4", "extraip:V4"}
 	c04Ports   = []string{"80", "443", "1000-2000", "0-65535", "8080", "1-1023", "80-80", "2000"}
 	c04Macs    = []string{"02:00:00:00:00:01", "02:00:00:00:00:02"}
 	c04Pnames  = []string{"curl", "sshd", "verylongprocessname1234"}
@@ -669,8 +943,8 @@ var (
 	c04Qtypes  = []string{"a", "aaaa", "cname", "28", "https", "A", "1"}
 	c04Ups     = []string{"alidns", "googledns", "cf"}
 
-	c04Domains = []string{"", "a.com", "www.a.com", "b.a.com", "xa.com", "x.org", "goo.net", "goog.le", "c.com", "b.com", "x.b.com", "a.co", "x.a.org", "zzz.net"}
-	c04Addrs   = []string{"10.0.0.1", "10.1.2.3", "11.0.0.0", "1.1.1.1", "1.1.1.2", "1.1.2.1", "192.168.1.1", "192.169.0.0", "8.8.8.8", "2001:db8::1", "2001:db9::1", "::1", "::2", "fd00::5", "fe00::5", "b::c", "a:b::c"}
+	c04Domains = []string{"", "a.com", "www.a.com", "b.a.com", "xa.com", "x.org", "goo.net", "goog.le", "c.com", "b.com", "x.b.com", "a.co", "x.a.org", "zzz.net", "d0000.big.example", "x.d2999.big.example", "h007.example", "www.h399.example", "d3999.big.example", "d4000.big.example"}
+	c04Addrs   = []string{"10.0.0.1", "10.1.2.3", "10.2.77.9", "10.3.200.1", "11.0.0.0", "1.1.1.1", "1.1.1.2", "1.1.2.1", "192.168.1.1", "192.169.0.0", "192.169.3.4", "8.8.8.8", "8.8.9.8", "2001:db8::1", "2001:db9::1", "::1", "::2", "fd00::5", "fe00::5", "b::c", "a:b::c"}
 	c04PortNum = []uint16{0, 1, 79, 80, 81, 443, 999, 1000, 1023, 1024, 2000, 2001, 8080, 65535}
 )
 
@@ -678,6 +952,30 @@ func c04Pick(r *VRand, s []string) string { return s[r.Intn(len(s))] }
 
 // one parameter for function `name` (user-level name, may be an alias).
 func c04GenParam(r *VRand, kind, name string) *c04Param {
+	if r.Chance(0.012) { // configuration-error classes of the dat stage / the builders (whole program fails)
+		switch r.Intn(6) {
+		case 0:
+			return &c04Param{Key: "ext", Val: "nocolon"} // ext without ':code'
+		case 1:
+			if name != "domain" && name != "qname" && name != "dip" && name != "ip" {
+				return &c04Param{Key: "ext", Val: "extra:e1"} // ext in a function that has no external lists
+			}
+		case 2:
+			return &c04Param{Key: "geoip", Val: "inv"} // inverse-match list
+		case 3:
+			if name == "dip" || name == "ip" || name == "sip" || name == "dport" || name == "port" {
+				return &c04Param{Key: "geosite", Val: "one"} // domain list in an address / port function
+			}
+		case 4:
+			if name == "domain" || name == "qname" {
+				return &c04Param{Key: "geoip", Val: "v4"} // address list in a domain function
+			}
+		case 5:
+			if name == "qname" {
+				return &c04Param{Key: "contains", Val: "goo"} // alias key where there is no alias stage
+			}
+		}
+	}
 	switch name {
 	case "domain", "qname":
 		k := r.Intn(100)
@@ -723,9 +1021,9 @@ func c04GenParam(r *VRand, kind, name string) *c04Param {
 		}
 		return &c04Param{Val: c04Pick(r, c04Ports)}
 	case "l4proto":
-		return &c04Param{Val: c04Pick(r, []string{"tcp", "udp"})}
+		return &c04Param{Val: c04Pick(r, []string{"tcp", "udp", "tcp", "udp", "sctp"})} // unknown values are ignored by the mask
 	case "ipversion":
-		return &c04Param{Val: c04Pick(r, []string{"4", "6"})}
+		return &c04Param{Val: c04Pick(r, []string{"4", "6", "4", "6", "5"})}
 	case "mac":
 		return &c04Param{Val: c04Pick(r, c04Macs)}
 	case "pname":
@@ -790,15 +1088,30 @@ func c04GenOutbound(r *VRand, kind string) c04Func {
 		}
 		return o
 	case "dnsreq":
-		return c04Func{Name: c04Pick(r, []string{"alidns", "googledns", "cf", "asis", "reject"})}
+		o := c04Func{Name: c04Pick(r, []string{"alidns", "googledns", "cf", "asis", "reject"})}
+		if r.Chance(0.1) { // parameters are parsed and ignored by the DNS builders, but they make outbounds differ
+			o.Params = []*c04Param{{Key: "mark", Val: c04Pick(r, []string{"1", "2"})}}
+		}
+		return o
 	default:
-		return c04Func{Name: c04Pick(r, []string{"alidns", "googledns", "cf", "accept", "reject"})}
+		o := c04Func{Name: c04Pick(r, []string{"alidns", "googledns", "cf", "accept", "reject"})}
+		if r.Chance(0.1) {
+			o.Params = []*c04Param{{Key: "mark", Val: c04Pick(r, []string{"1", "2"})}}
+		}
+		return o
 	}
 }
 
 // near-miss of an outbound: structurally different (so it must NOT be merged).
 func c04Vary(r *VRand, kind string, o c04Func) c04Func {
-	if kind != "traffic" || o.Name == "must_rules" {
+	if kind != "traffic" {
+		n := c04Func{Name: o.Name}
+		if len(o.Params) == 0 {
+			n.Params = []*c04Param{{Key: "mark", Val: "3"}} // same upstream, written differently
+		}
+		return n
+	}
+	if o.Name == "must_rules" {
 		return c04GenOutbound(r, kind)
 	}
 	n := c04Func{Name: o.Name}
@@ -838,7 +1151,7 @@ func c04GenProg(r *VRand, kind string, st *VStats) []*c04Rule {
 		name := c04Pick(r, names)
 		neg := r.Chance(0.2)
 		out := c04GenOutbound(r, kind)
-		runLen := 1 + r.Intn(4)
+		runLen := 1 + r.Intn(5)
 		if r.Chance(0.3) {
 			runLen = 1
 		}
@@ -876,6 +1189,57 @@ func c04GenProg(r *VRand, kind string, st *VStats) []*c04Rule {
 			if r.Chance(0.15) {
 				rule.Outbound = c04Vary(r, kind, out)
 				st.Inc("gen.outbound_nearmiss")
+			}
+			rules = append(rules, rule)
+		}
+	}
+	return rules
+}
+
+// scale: 100-250 rules, runs of 30-60 neighbours sharing function and outbound, values from a large
+// space (so that merged functions carry hundreds of values), now and then a 3000-entry category.
+func c04GenBigProg(r *VRand, kind string) []*c04Rule {
+	n := 100 + r.Intn(151)
+	var rules []*c04Rule
+	nBigRefs := 0
+	for len(rules) < n {
+		var name string
+		switch kind {
+		case "traffic":
+			name = c04Pick(r, []string{"domain", "dip", "sip", "domain"})
+		case "dnsreq":
+			name = "qname"
+		default:
+			name = c04Pick(r, []string{"qname", "ip"})
+		}
+		out := c04GenOutbound(r, kind)
+		if out.Name == "must_rules" {
+			out = c04Func{Name: "proxy"}
+		}
+		neg := r.Chance(0.1)
+		runLen := 30 + r.Intn(31)
+		for i := 0; i < runLen && len(rules) < n; i++ {
+			f := &c04Func{Name: name, Not: neg}
+			k := 1 + r.Intn(3)
+			for j := 0; j < k; j++ {
+				switch name {
+				case "domain", "qname":
+					switch {
+					case nBigRefs < 3 && r.Chance(0.03):
+						nBigRefs++
+						f.Params = append(f.Params, &c04Param{Key: "geosite", Val: c04Pick(r, []string{"big", "big2"})})
+					case r.Chance(0.5):
+						f.Params = append(f.Params, &c04Param{Key: "suffix", Val: fmt.Sprintf("d%04d.big.example", r.Intn(4200))})
+					default:
+						f.Params = append(f.Params, &c04Param{Key: c04Pick(r, []string{"full", "keyword", "suffix"}), Val: fmt.Sprintf("h%03d.example", r.Intn(400))})
+					}
+				default:
+					f.Params = append(f.Params, &c04Param{Val: fmt.Sprintf("10.%d.%d.0/24", r.Intn(4), r.Intn(256))})
+				}
+			}
+			rule := &c04Rule{AndFunctions: []*c04Func{f}, Outbound: c04CloneOut(out)}
+			if r.Chance(0.05) { // break the run
+				rule.Outbound = c04Vary(r, kind, out)
 			}
 			rules = append(rules, rule)
 		}
@@ -1001,7 +1365,8 @@ func (e *c04Env) runProgram(o *c04Out, r *VRand, kind, tag string, rules []*c04R
 				}
 				seenGeo[id] = true
 				ps, ok := c04ExpectedExpansion(gk, file, code)
-				if rp, rok := e.probeExpand(fname, p); rok == ok && (!ok || c04SameParams(rp, ps)) {
+				if rp, rok := e.probeExpand(fname, p); (rok == ok && (!ok || c04SameParams(rp, ps))) || (ok && len(ps) == 0 && !rok) {
+					// (an expansion to nothing is an error of the real dat stage, an empty list in the table)
 					st.Inc("geodata.real_expansion_equals_documented")
 				} else {
 					st.Inc("geodata.real_expansion_DIFFERS_from_documented")
@@ -1050,6 +1415,19 @@ func (e *c04Env) runProgram(o *c04Out, r *VRand, kind, tag string, rules []*c04R
 	if stage != "opt" {
 		opt = c04SerProg(normalised)
 	}
+	// DNS kinds: the matcher that decides is the one the production constructor dns.New builds
+	if kind != "traffic" && e.dnsNew {
+		pm, usable := e.dnsProduction(kind, rules, fb)
+		if usable {
+			m = pm
+			st.Inc(kind + ".matcher_from_real_dns.New")
+		} else {
+			e.dnsNew = false
+			st.Inc("dns.New_NOT_usable_fell_back_to_builders")
+		}
+	}
+	// the program after alias/dat only, compiled by the real builder as well (direct differential)
+	mRaw, _, _, _ := e.compile(kind, rules, config.FunctionOrString(fb), e.expandOnly(kind))
 	d := c04Descr{Kind: "P", Backend: kind, Tag: tag, Text: c04Text(rules), Fb: fb}
 	if stage != "opt" {
 		d.Merged = len(rules) - len(normalised)
@@ -1102,6 +1480,9 @@ func (e *c04Env) runProgram(o *c04Out, r *VRand, kind, tag string, rules []*c04R
 		l, _ := e.label(kind, &rule.Outbound)
 		labels[rule] = l
 	}
+	if tag == "scale" {
+		e.prepareBulk(atoms)
+	}
 	pkts := append([]*c04Packet(nil), packets...)
 	for i := 0; i < nRandomPackets; i++ {
 		pkts = append(pkts, c04GenPacket(r, kind))
@@ -1134,8 +1515,12 @@ func (e *c04Env) runProgram(o *c04Out, r *VRand, kind, tag string, rules []*c04R
 		if m != nil {
 			dec = m.decide(p)
 		}
+		raw := "err"
+		if mRaw != nil {
+			raw = mRaw.decide(p)
+		}
 		spec := c04Spec(kind, E, truth, labels, fbLabel)
-		o.emit("q "+bs+" -", "dec="+dec+" spec="+spec, c04Descr{Kind: "q", Pkt: p.String(kind)})
+		o.emit("q "+bs+" -", "dec="+dec+" spec="+spec+" raw="+raw, c04Descr{Kind: "q", Pkt: p.String(kind)})
 		st.Inc(kind + ".evaluations")
 		if dec == "err" {
 			st.Inc(kind + ".decision.build_error")
@@ -1197,6 +1582,16 @@ func c04Witnesses() []c04Witness {
 		{"traffic", "c04-outbound-key-truncated", "dport(80) -> proxy(must, must, must, must, must, mark: 1)\ndport(443) -> proxy(must, must, must, must, must, mark: 2)", "direct", tp},
 		// fix fd3d399: dedup keys on the (key, value) pair
 		{"traffic", "c04-dedup-key-collision", "dip('a:b::c', a: 'b::c') -> proxy", "direct", tp},
+		// fix c4a0556: an expansion to nothing is a configuration error already at the dat stage
+		{"traffic", "c04-selector-empty-expansion-catchall", "domain(geosite:empty) -> proxy\ndomain(suffix: a.com) -> proxy", "direct", tp},
+		{"dnsreq", "c04-selector-empty-expansion-catchall", "qname(geosite:attr@nosuch, geosite:empty) -> alidns", "asis", qp},
+		// the empty rule list
+		{"traffic", "empty-rule-list", "", "proxy", tp},
+		{"dnsreq", "empty-rule-list", "", "alidns", qp},
+		{"dnsresp", "empty-rule-list", "", "reject", qp},
+		// geodata codes that exist in two files / as two kinds with different content
+		{"traffic", "geodata-colliding-codes", "domain(geosite:mix, ext:'extra:mix') -> proxy\ndomain(ext:'extra:one') && dip(geoip:both) -> block\ndomain(geosite:both, geosite:twice) -> other\ndip(geoip:v4, ext:'extraip:v4') -> block", "direct",
+			append(append([]*c04Packet{}, tp...), c04Pkt("8.8.8.8", 80, "zzz.net"), c04Pkt("192.169.3.4", 80, "x.b.com"), c04Pkt("10.0.0.1", 80, "c.com"), c04Pkt("2.2.2.2", 80, "x.org"))},
 		// behaviour that must stay: merging of plain neighbours, alias twins, geodata + literal duplicates
 		{"traffic", "keep-merge", "dport(80) -> proxy\nport(443, 80) -> proxy\ndport(8080) -> direct", "block", tp},
 		{"traffic", "keep-dedup", "domain(geosite:dup, suffix: a.com, a.com, keyword: goo) && dport(80, 80) -> proxy", "direct", tp},
@@ -1236,17 +1631,22 @@ func TestVerifC04(t *testing.T) {
 		expOk:    map[string]bool{},
 		atomM:    map[string]any{},
 		stats:    stats,
+		bulk:     map[c04Atom]c04BulkRef{},
 	}
 
-	// the optimizer lists of the production call sites (the harness runs the stages in THAT order)
-	env.stages = map[string][]string{
-		"traffic": c04Stages("control/control_plane.go", "NewNormalizedProgram"),
-		"dnsreq":  c04Stages("component/dns/dns.go", "NewNormalizedRequestRoutingProgram"),
-		"dnsresp": c04Stages("component/dns/dns.go", "NewNormalizedProgram"),
+	// the production call sites: optimizer lists (the harness runs the stages in THAT order), options,
+	// glue.  DNS request/response decisions additionally come from the real dns.New.
+	sites := map[string]c04Site{
+		"traffic": c04ReadSite("control/control_plane.go", "NewNormalizedProgram", "NewRoutingMatcherBuilderFromProgram"),
+		"dnsreq":  c04ReadSite("component/dns/dns.go", "NewNormalizedRequestRoutingProgram", ""),
+		"dnsresp": c04ReadSite("component/dns/dns.go", "NewNormalizedProgram", ""),
 	}
+	env.stages = map[string][]string{}
+	env.dnsNew = true
 	for _, k := range []string{"traffic", "dnsreq", "dnsresp"} {
-		out.emit("pipeline "+k+" "+c04Tok(strings.Join(env.stages[k], ",")), "pipeline="+strings.Join(env.stages[k], ","),
-			c04Descr{Kind: "pipeline", Backend: k, Text: env.stages[k]})
+		env.stages[k] = c04UsableStages(sites[k].names, k)
+		out.emit("pipeline "+k+" "+c04Tok(strings.Join(sites[k].names, ",")), sites[k].String(),
+			c04Descr{Kind: "pipeline", Backend: k, Text: sites[k].names})
 	}
 
 	// the parser guarantees the model's input assumption: no function without parameters, no rule
@@ -1261,6 +1661,20 @@ func TestVerifC04(t *testing.T) {
 
 	for _, w := range c04Witnesses() {
 		env.runProgram(out, r, w.kind, w.tag, c04Parse(t, w.body), w.fb, w.pkts, 4)
+	}
+
+	// scale stream: long rule lists with long mergeable runs and two large geosite categories
+	nBig := map[string]int{"traffic": 3, "dnsreq": 1, "dnsresp": 1}
+	if VThorough() {
+		nBig = map[string]int{"traffic": 12, "dnsreq": 5, "dnsresp": 5}
+	}
+	for _, kind := range []string{"traffic", "dnsreq", "dnsresp"} {
+		fb := map[string]string{"traffic": "direct", "dnsreq": "asis", "dnsresp": "accept"}[kind]
+		for i := 0; i < nBig[kind]; i++ {
+			rules := c04GenBigProg(r, kind)
+			stats.Add("scale.rules", len(rules))
+			env.runProgram(out, r, kind, "scale", rules, fb, nil, 3)
+		}
 	}
 
 	nProg := map[string]int{"traffic": 700, "dnsreq": 300, "dnsresp": 300}
